@@ -50,8 +50,38 @@ SoundOn(ev, i) ==
                  /\ ev.views[id][v].effect = (CHOOSE p \in PolSet(ev) : p.id = id).effect
      /\ RespEq(ev.reauth[i], exp)
 
+\* ---- permission queries: the answer is exactly the set of candidates the ordinary
+\* authorizer allows (resource / principal), and an action query never omits an allowed
+\* action nor labels one definitely allowed (denied) that is not
+DecisionOn(ev, env) == ResponseOf(Triples(PolSet(ev), env.req, env.store)).decision
+OfType(store, ty) == {u \in DOMAIN store : u[2] = ty}
+QueryOk(ev) ==
+  LET env == EnvP(ev.base)
+      resExp == {u \in OfType(env.store, env.req.resource[2]) :
+                   DecisionOn(ev, [env EXCEPT !.req.resource = u]) = "Allow"}
+      prExp == {u \in OfType(env.store, env.req.principal[2]) :
+                   DecisionOn(ev, [env EXCEPT !.req.principal = u]) = "Allow"}
+      \* the action query leaves action and context open: every environment that agrees
+      \* with the base on everything else
+      compl == {EnvP(p) : p \in Agree(ev.base, {8}, FALSE)}
+      acts == {e.req.action : e \in compl}
+      listed == {ev.actions[i][1] : i \in 1..Len(ev.actions)}
+      label(a) == (CHOOSE i \in 1..Len(ev.actions) : ev.actions[i][1] = a)
+  IN /\ ev.qerr = <<>>
+     /\ NoDup(ev.resource) /\ ToSet(ev.resource) = resExp
+     /\ NoDup(ev.principal) /\ ToSet(ev.principal) = prExp
+     /\ \A i, j \in 1..Len(ev.actions) : i # j => ev.actions[i][1] # ev.actions[j][1]
+     /\ listed \subseteq acts
+     /\ \A a \in acts :
+          LET ds == {DecisionOn(ev, e) : e \in {x \in compl : x.req.action = a}}
+          IN /\ ("Allow" \in ds) => a \in listed
+             /\ (a \in listed) => LET lb == ev.actions[label(a)][2]
+                                  IN /\ lb # "Deny"
+                                     /\ (lb = "Allow") => ds = {"Allow"}
+
 Explained(ev) ==
   IF ev.ev = "TpeSetup" THEN ev.envs = Cardinality(AllParams(0))
+  ELSE IF ev.ev = "Query" THEN QueryOk(ev)
   ELSE /\ ev.ev = "Tpe"
        /\ "tpeError" \notin DOMAIN ev
        /\ DOMAIN ev.class = Ids(ev)
